@@ -1,6 +1,7 @@
 import MosnVerif.Lemmas.Framing
 import MosnVerif.Lemmas.FrameSteps
 import MosnVerif.Lemmas.Match
+import MosnVerif.Lemmas.FrameH2
 /-!
 # C07 — message extraction is independent of how TCP segments the byte stream (property theorems only)
 
@@ -9,6 +10,7 @@ import MosnVerif.Lemmas.Match
 computations (Model/FrameSteps.lean); the matchers are Model/Match.lean.
 -/
 namespace MosnVerif.Props.C07
+open MosnVerif.Model.FramingS MosnVerif.Model.FrameH2
 open MosnVerif.Model.Framing MosnVerif.Model.FrameSteps MosnVerif.Model.Match MosnVerif.Model.FrameSpec
 
 /-- **segmentation_independent** (generic): for every prefix-stable decoder, every byte stream and every way of
@@ -78,6 +80,25 @@ theorem prefix_delivery (d : Bytes → Step Bytes) (hs : Stable d) (fs : List By
 theorem incomplete_frame_needs_more (d : Bytes → Step Bytes) (hs : Stable d) (g : Bytes)
     (hg : d g = .frame g g.length) (k : Nat) (hk : k < g.length) : d (g.take k) = .needMore :=
   prefix_needMore d hs g hg k hk
+
+/-- **segmentation_independent_stateful**: the same for decoders that carry connection state which changes only when
+an item is produced (HTTP/2: "client preface consumed"). -/
+theorem segmentation_independent_stateful {F σ : Type} (d : σ → Bytes → Step (F × σ)) (hs : SStable d) (s0 : σ)
+    (h0 : d s0 [] = .needMore) (chunks : List Bytes) : srun d s0 chunks = srun d s0 [chunks.flatten] := by
+  rw [srun_eq_sfeed d hs s0 h0 chunks, srun_eq_sfeed d hs s0 h0 [chunks.flatten]]; simp
+
+/-- prefix-stability of the HTTP/2 server-side frame extraction (`ReadPreface`, then `MFramer.ReadFrame`: 9-byte
+header, 24-bit length, read-size limit, HEADERS + CONTINUATION pulled and drained as one item), for every read
+limit, every payload-parser behaviour that is a function of the frame and every HPACK outcome that is a function of
+the group bytes; over the regenerated length tests, sizes and `Drain` argument. -/
+theorem stable_http2 (maxRead : Nat) (parseOk groupOk : Bytes → Bool) : SStable (h2Step maxRead parseOk groupOk) :=
+  h2Step_stable maxRead parseOk groupOk
+
+/-- **segmentation independence of HTTP/2 frame extraction** (preface + frames, any chunking) -/
+theorem segmentation_independent_http2 (maxRead : Nat) (parseOk groupOk : Bytes → Bool) (chunks : List Bytes) :
+    srun (h2Step maxRead parseOk groupOk) false chunks = srun (h2Step maxRead parseOk groupOk) false [chunks.flatten] :=
+  segmentation_independent_stateful _ (stable_http2 maxRead parseOk groupOk) false
+    (h2Step_empty maxRead parseOk groupOk false) chunks
 
 /-- **match_monotone**: for every protocol matcher (bolt, boltv2, dubbo, dubbothrift, tars, HTTP/1 method table,
 HTTP/2 preface) an answer `success` or `failed` on a prefix is final on every extension. -/
@@ -165,5 +186,13 @@ example : frameStep_dubbo (fun _ => true) [0xda,0xbb,0xe2,0,0,0,0,0,0,0,0,9,0,0,
     .frame [0xda,0xbb,0xe2,0,0,0,0,0,0,0,0,9,0,0,0,1,78] 17 := by decide
 example : frameStep_tars (fun _ => true) [0,0,0,6,16,1,9] = .frame [0,0,0,6,16,1] 6 := by decide
 example : boltMatch [1] = .success ∧ dubboMatch [0xda] = .again ∧ http1Match [71,69,84] = .success := by decide
+
+-- HTTP/2: preface, then a SETTINGS frame (length 0) and a HEADERS frame without END_HEADERS followed by its
+-- CONTINUATION: three items, the group drained as one
+def h2Sample : Bytes := (MosnVerif.Gen.FrameConsts.http2_preface.map UInt8.ofNat) ++ [0,0,0,4,0,0,0,0,0] ++
+  [0,0,1,1,0,0,0,0,1, 0x82] ++ [0,0,1,9,4,0,0,0,1, 0x84]
+example : ((srun (h2Step 1048576 (fun _ => true) (fun _ => true)) false
+    [h2Sample.take 30, h2Sample.drop 30 |>.take 20, h2Sample.drop 50]).out.map (fun o => (o.map List.length))) =
+    [none, some 9, some 20] := by decide
 
 end MosnVerif.Props.C07
